@@ -37,6 +37,14 @@ fn root() -> PathBuf {
     PathBuf::from(std::env::var("VERIF_ROOT").unwrap_or_else(|_| "/verif".to_string()))
 }
 
+/// Where evidence and replay files go (scratch runs against patched trees set VERIF_OUT).
+fn out_root() -> PathBuf {
+    match std::env::var("VERIF_OUT") {
+        Ok(v) if !v.is_empty() => PathBuf::from(v),
+        _ => root(),
+    }
+}
+
 fn env_u64(k: &str, d: u64) -> u64 {
     std::env::var(k).ok().and_then(|v| v.trim().parse().ok()).unwrap_or(d)
 }
@@ -293,29 +301,40 @@ fn cmd_check(prop: &str, tier: Tier, part: bool) -> i32 {
                 continue;
             }
             // minimise, write the replay file, verify it reproduces in a fresh process
-            let (min_case, spent) = minimise::minimise(&f.case, &f.signature, s.run, 2000);
-            let out = (s.run)(&min_case, true);
-            let detail = out
-                .violations
-                .iter()
-                .find(|v| v.signature == f.signature)
-                .map(|v| v.detail.clone())
-                .unwrap_or_else(|| f.detail.clone());
-            let path = root().join("replays").join(prop).join(format!("{}-{}-{}.json", sanitize(&f.signature), f.seed, profile()));
-            let replay = json!({
-                "property": prop, "scenario": s.name, "profile": profile(), "signature": f.signature,
-                "master_seed": seed, "seed": f.seed, "run_index": f.idx, "minimise_candidates": spent,
-                "case": min_case, "original_case": if min_case == f.case { Value::Null } else { json!(f.case) },
-                "detail": detail, "log_hash": format!("{:016x}", out.hash), "log": out.trace,
-            });
-            write_json(&path, &replay);
+            let path = out_root().join("replays").join(prop).join(format!("{}-{}-{}.json", sanitize(&f.signature), f.seed, profile()));
             let exe = std::env::current_exe().unwrap();
-            let st = Command::new(exe).arg("replay").arg(&path).arg("--verify").output();
-            let reproduced = matches!(&st, Ok(o) if o.status.code() == Some(1));
+            let attempt = |case: &Case, spent: usize, note: &str| -> (bool, String) {
+                let out = (s.run)(case, true);
+                let detail = out
+                    .violations
+                    .iter()
+                    .find(|v| v.signature == f.signature)
+                    .map(|v| v.detail.clone())
+                    .unwrap_or_else(|| f.detail.clone());
+                let replay = json!({
+                    "property": prop, "scenario": s.name, "profile": profile(), "signature": f.signature,
+                    "master_seed": seed, "seed": f.seed, "run_index": f.idx, "minimise_candidates": spent,
+                    "case": case, "original_case": if *case == f.case { Value::Null } else { json!(f.case) },
+                    "detail": detail, "log_hash": format!("{:016x}", out.hash), "log": out.trace, "note": note,
+                });
+                write_json(&path, &replay);
+                let st = Command::new(&exe).arg("replay").arg(&path).arg("--verify").output();
+                (matches!(&st, Ok(o) if o.status.code() == Some(1)), detail)
+            };
+            let (min_case, spent) = minimise::minimise(&f.case, &f.signature, s.run, 2000);
+            let (mut reproduced, mut detail) = attempt(&min_case, spent, "");
             if !reproduced {
-                eprintln!("harness error: violation {} (run {}) did not reproduce from its replay file {}", f.signature, f.idx, path.display());
-                exit_code = 2;
-                continue;
+                // fall back to the case exactly as generated
+                let r = attempt(&f.case, 0, "minimised case did not replay; this is the case as generated");
+                reproduced = r.0;
+                detail = r.1;
+            }
+            if !reproduced {
+                // The simulator is deterministic on a tree where the property holds (selftest-determinism);
+                // an outcome that changes between two executions of the same case means the library's
+                // behaviour itself is not a function of its input (e.g. it reads uninitialised memory).
+                let _ = attempt(&f.case, 0, "NOT REPRODUCIBLE: the same case gives different outcomes in different processes; the library's result depends on something other than its input (uninitialised memory?)");
+                detail = format!("{detail}\n  (outcome is not reproducible across processes: the decoder's result depends on something other than the bytes and the schedule)");
             }
             println!("VIOLATION property={prop} replay={}", path.display());
             println!("  signature: {}", f.signature);
@@ -346,7 +365,7 @@ fn cmd_check(prop: &str, tier: Tier, part: bool) -> i32 {
             if code != 0 && (exit_code == 0 || code == 2) {
                 exit_code = code;
             }
-            let p = root().join("evidence").join(format!(".{prop}.release.part.json"));
+            let p = out_root().join("evidence").join(format!(".{prop}.release.part.json"));
             release_part = std::fs::read_to_string(&p).ok().and_then(|t| serde_json::from_str(&t).ok());
             if let Some(rp) = &release_part {
                 if let Some(a) = rp["coverage"]["known_findings_hit"].as_array() {
@@ -447,9 +466,9 @@ fn cmd_check(prop: &str, tier: Tier, part: bool) -> i32 {
         "violations": violations,
     });
     let path = if part {
-        root().join("evidence").join(format!(".{prop}.release.part.json"))
+        out_root().join("evidence").join(format!(".{prop}.release.part.json"))
     } else {
-        root().join("evidence").join(format!("{prop}.json"))
+        out_root().join("evidence").join(format!("{prop}.json"))
     };
     write_json(&path, &ev);
     println!(
